@@ -15,6 +15,9 @@ FAMS = {
     "triangle": [(("a", "b"), "I"), (("b", "c"), "T"), (("c", "a"), "I")],
     "disconnected": [(("a",), "I"), (("c", "b"), "I")],
     "single": [(("b",), "P")],
+    "single_I": [(("b",), "I")],
+    "pair_P": [(("a", "b"), "P")],
+    "pair_I": [(("a", "b"), "I")],
     "empty": [],
 }
 
@@ -59,7 +62,7 @@ def prepare_inference(V, line_search_cut=None):
         shims.shadow(inf, _persist=True, range=cut_range, print=_quiet)
     _RANGE_CUT["k"] = line_search_cut
     if V.symbolic and inf.__dict__.get("lsmr") is not shims.lsmr_by_contract:
-        shims.shadow(inf, lsmr=shims.lsmr_by_contract)
+        shims.shadow(inf, lsmr=shims.lsmr_by_contract, eigsh=shims.eigsh_by_contract)
     return mbi
 
 
@@ -104,19 +107,14 @@ def model_answers(V, T, model, dom, attrs, N, tag, tuples=None):
         T.append(("%sproject(%s):sums_to_total" % (tag, ",".join(S)), s, N))
         for idx, g in common.factor_cells(F):
             T.append(("%sproject(%s):nonneg%s" % (tag, ",".join(S), "".join(map(str, idx))), V.ge(g, 0), True))
-    # agreement on shared attributes
-    keys = list(ans.keys())
-    for i, S1 in enumerate(keys):
-        for S2 in keys[i + 1:]:
-            sh = tuple(a for a in S1 if a in S2)
-            if not sh or len(sh) == len(S1) == len(S2):
-                if set(S1) == set(S2) and S1 != S2:
-                    # same attributes, different order: transposes of one another
-                    F2 = ans[S2].transpose(S1)
-                    for idx, g in common.factor_cells(ans[S1]):
-                        T.append(("%sagree[%s|%s]%s" % (tag, ",".join(S1), ",".join(S2), "".join(map(str, idx))), g, F2.values[idx]))
-                continue
-            m1, m2 = ans[S1].project(sh), ans[S2].project(sh)
-            for idx, g in common.factor_cells(m1):
-                T.append(("%sagree[%s|%s]%s" % (tag, ",".join(S1), ",".join(S2), "".join(map(str, idx))), g, m2.values[idx]))
+    # agreement on shared attributes: every answer is the corresponding marginal of the answer for the full attribute tuple
+    # (pairwise agreement follows; that every query path reads one joint is C02's subject)
+    full_t = tuple(attrs)
+    full = ans.get(full_t) or model.project(full_t)
+    for S, F in ans.items():
+        if S == full_t:
+            continue
+        ref = full.project(S)
+        for idx, g in common.factor_cells(F):
+            T.append(("%sagree[%s|full]%s" % (tag, ",".join(S), "".join(map(str, idx))), g, ref.values[idx]))
     return ans
